@@ -112,6 +112,10 @@ struct AotCWhole {
 
 impl CompiledWhole for AotCWhole {
     fn try_dispatch(&self, ff: *const u8, comb: *mut u8, log: *mut u8) -> DispatchOutcome {
+        #[cfg(veryl_verif)]
+        if crate::verif::gate_blocks(false) {
+            return DispatchOutcome::NotReady;
+        }
         match self.cell.get() {
             Some(m) => {
                 // SAFETY: caller provides pointers valid for the
@@ -128,6 +132,10 @@ impl CompiledWhole for AotCWhole {
     }
 
     fn try_dispatch_const(&self, ff: *const u8, comb: *mut u8, log: *mut u8) -> DispatchOutcome {
+        #[cfg(veryl_verif)]
+        if crate::verif::gate_blocks(true) {
+            return DispatchOutcome::NotReady;
+        }
         match self.cell.get() {
             Some(m) => {
                 if let Some(f) = m.const_func {
